@@ -434,6 +434,14 @@ def r5_annotation(chk, fx):
         chk.instance("C03/R5", "annotation parse result is handled (a path on which the expression fails to parse exists)", t["def"], loc_of(t.get("sp")),
                      holds=False, key="C03/R5 Maybe<Candidate>::read_xml unrecognised-form")
         return
+    # .. and an annotation that *does* parse makes the statement a candidate, whatever the expression looks like: whether it can be
+    # evaluated is the evaluator's verdict (a failed evaluation leaves the installed policy alone, R1) — a statement dropped here is
+    # "no longer managed" for compare, which deletes it
+    parsed = [p for p in paths if any(k.startswith("variant:str::parse(") and v == "Ok" for k, v in p.assume.items())]
+    dropped = [p for p in parsed if p.end == "iter-end" and not any("str::parse(" in A.vstr(a[2]) for a in p.assigns())]
+    chk.instance("C03/R5", "a bgpfu-fltr: annotation that parses is kept (%d parsing paths)" % len(parsed), t["def"], loc_of(t.get("sp")), holds=bool(parsed) and not dropped,
+                 key="C03/R5 Maybe<Candidate>::read_xml parsed-annotation-dropped",
+                 detail=None if not dropped else "a still-managed statement whose expression is judged 'unsupported' here drops out of the candidates: compare deletes its installed policy")
     only_logged = [p for p in fails if p.end == "iter-end" and not p.assigns()]
     chk.instance("C03/R5", "a malformed bgpfu-fltr: annotation influences the result (not only logged) — %d failing-parse paths, %d without any effect" % (
         len(fails), len(only_logged)), t["def"], loc_of(t.get("sp")), holds=not only_logged,
